@@ -20,7 +20,7 @@ Not decided: that the constraint predicates compute the right geometry.
 """
 import ast
 
-from ..engine.inline import Inliner
+from ..engine.inline import Inliner, cmp_parts
 from ..engine.model import AnalysisError, src, walk_own
 from .spstate import SPAnalysis, SPM, DERIVED, REL, POSE_B, POSE_T, self_field, St, SPDomain
 from ..engine.flow import Flow
@@ -195,10 +195,11 @@ def check(model, rep):
     pd_, pl_ = v.params[1], v.params[2]
     chain = []
     for n in v.body():
-        if isinstance(n, ast.If) and src(n.test).startswith(pl_ + ' >'):
+        cp = cmp_parts(n.test, left=pl_) if isinstance(n, ast.If) else None
+        if cp is not None and cp[1] == '>':
             c = n.body[0] if n.body else None
             if isinstance(c, ast.Assign) and src(c.targets[0]) == acc and isinstance(c.value, ast.Call):
-                chain.append((src(n.test).replace(' ', ''), src(c.value).replace(' ', '')))
+                chain.append(('%s>%s' % (cp[0], cp[2]), src(c.value).replace(' ', '')))
     want = [('%s>%d' % (pl_, i), 'self.%s(%s,%s)' % (VALIDATORS[i][0], acc, pd_)) for i in range(4)]
     rep.ob('R10.3', v, 'validate(): four validators in switch order under limits 0..3', chain == want, 'chain is %s' % chain)
     rep.ob('R10.3', v, 'validate() returns the accumulated verdict', acc is not None, 'validate does not return the accumulated verdict')
